@@ -1,64 +1,37 @@
-// Generates `AccShow` impls for every Unicode property node of the pest_typed under test
-// (main/src/predefined_node/unicode.rs: one `unicode!(NAME);` per property).
+// Generates the `AccShow` impls for the types of the runtime crate that the workspace needs:
+//   ACC_LIB_ARITIES = "Seq2,Seq3,...,Choice12"   library SeqN / ChoiceN (what the generator re-exports for the corpus
+//                                                grammars + what the raw instantiations name), and
+//   ACC_UNICODE     = "LETTER,HAN,..."           Unicode property node types the corpus grammars use.
+// Both lists are computed by harness/accgen.py from the GENERATOR'S OUTPUT (acc_common/arity_tool), not from the
+// sources of /repo.  Without the variables (a build outside accgen): arities 2..12, a few properties.
 use std::{env, fs, path::Path};
 fn main() {
-    let dir = env::var("CARGO_MANIFEST_DIR").unwrap();
-    let toml = fs::read_to_string(Path::new(&dir).join("Cargo.toml")).unwrap();
-    let line = toml.lines().find(|l| l.trim_start().starts_with("pest_typed ")).expect("pest_typed dependency");
-    let path = line.split("path").nth(1).and_then(|r| r.split('"').nth(1)).expect("path of pest_typed");
-    let src_path = Path::new(path).join("src/predefined_node/unicode.rs");
-    println!("cargo:rerun-if-changed={}", src_path.display());
     println!("cargo:rerun-if-changed=build.rs");
-    let src = fs::read_to_string(&src_path).unwrap_or_default();
-    let mut names = vec![];
-    for l in src.lines() {
-        if let Some(r) = l.trim().strip_prefix("unicode!(") {
-            if let Some(n) = r.strip_suffix(");") {
-                if n.chars().all(|c| c.is_ascii_alphanumeric() || c == '_') && !n.is_empty() {
-                    names.push(n.to_string());
-                }
-            }
-        }
-    }
-    let out = Path::new(&env::var("OUT_DIR").unwrap()).join("uni.rs");
-    fs::write(out, format!("acc_unicode!({});\n", names.join(", "))).unwrap();
-
-    // `AccShow` for every arity the runtime crate itself provides: one `seq!(SeqN, N, …)` /
-    // `choices!(ChoiceN, choiceN, N, …)` invocation per arity in sequence.rs / choices.rs.
+    println!("cargo:rerun-if-env-changed=ACC_LIB_ARITIES");
+    println!("cargo:rerun-if-env-changed=ACC_UNICODE");
+    let default_ar: String = (2..=12).map(|n| format!("Seq{},Choice{}", n, n)).collect::<Vec<_>>().join(",");
+    let ar = env::var("ACC_LIB_ARITIES").unwrap_or(default_ar);
+    let uni = env::var("ACC_UNICODE").unwrap_or_else(|_| "LETTER,NUMBER,ALPHABETIC".to_string());
+    let ok = |n: &str| !n.is_empty() && n.chars().all(|c| c.is_ascii_alphanumeric() || c == '_');
+    let names: Vec<&str> = uni.split(',').filter(|n| ok(n)).collect();
+    let out_dir = env::var("OUT_DIR").unwrap();
+    fs::write(Path::new(&out_dir).join("uni.rs"), if names.is_empty() { String::new() } else { format!("acc_unicode!({});\n", names.join(", ")) }).unwrap();
     let mut arities = String::new();
-    for (file, mac, prefix) in [("src/sequence.rs", "seq!(", "Seq"), ("src/choices.rs", "choices!(", "Choice")] {
-        let p = Path::new(path).join(file);
-        println!("cargo:rerun-if-changed={}", p.display());
-        let text = fs::read_to_string(&p).unwrap_or_default();
-        let code: Vec<&str> = text.lines().map(|l| l.split("//").next().unwrap_or("")).collect();
-        let src: String = code.join(" ").split_whitespace().collect::<Vec<_>>().join("");
-        let mut seen = vec![];
-        let mut rest = src.as_str();
-        while let Some(i) = rest.find(mac) {
-            // an invocation at item level is preceded by `;`, `}` or nothing (not by `macro_rules!` text like `$crate::`)
-            let before = rest[..i].chars().last();
-            rest = &rest[i + mac.len()..];
-            if !(before.is_none() || before == Some(';') || before == Some('}')) {
-                continue;
-            }
-            if let Some(r) = rest.strip_prefix(prefix) {
-                let digits: String = r.chars().take_while(|c| c.is_ascii_digit()).collect();
-                if let Ok(n) = digits.parse::<usize>() {
-                    if n >= 2 && r[digits.len()..].starts_with(',') && !seen.contains(&n) {
-                        seen.push(n);
-                    }
-                }
-            }
+    let mut seen: Vec<&str> = vec![];
+    for a in ar.split(',') {
+        if seen.contains(&a) {
+            continue;
         }
-        for n in seen {
-            if prefix == "Seq" {
-                let args: Vec<String> = (0..n).map(|k| format!("(T{}, {}),", k, k)).collect();
-                arities.push_str(&format!("acc_seq!(Seq{}, {}, {});\n", n, n, args.join(" ")));
-            } else {
+        seen.push(a);
+        if let Some(n) = a.strip_prefix("Seq").and_then(|d| d.parse::<usize>().ok()) {
+            let args: Vec<String> = (0..n).map(|k| format!("(T{}, {}),", k, k)).collect();
+            arities.push_str(&format!("acc_seq!(Seq{}, {}, {});\n", n, n, args.join(" ")));
+        } else if let Some(n) = a.strip_prefix("Choice").and_then(|d| d.parse::<usize>().ok()) {
+            if n >= 2 {
                 let args: Vec<String> = (0..n - 1).map(|k| format!("(T{}, _{}, {}),", k, k, k)).collect();
                 arities.push_str(&format!("acc_choice!(Choice{}, {}, {} ; (T{}, _{}, {}));\n", n, n, args.join(" "), n - 1, n - 1, n - 1));
             }
         }
     }
-    fs::write(Path::new(&env::var("OUT_DIR").unwrap()).join("arities.rs"), arities).unwrap();
+    fs::write(Path::new(&out_dir).join("arities.rs"), arities).unwrap();
 }
